@@ -69,11 +69,13 @@ theorem write_trace_pinned :
 `c17.pool` -/
 theorem close_trace_pinned :
     closeTrace = ["recv.F[*gzip.Writer] != nil => recv.F[*gzip.Writer].Close()",
-      "recv.F[*gzip.Writer] != nil => V[sync.Pool].Put(recv.F[*gzip.Writer])"] := by rfl
+      "recv.F[*gzip.Writer] != nil => V[sync.Pool].Put(recv.F[*gzip.Writer])",
+      "recv.F[*gzip.Writer] != nil => recv.F[*gzip.Writer] = nil"] := by rfl
 
-/-- the writer's fields are stored to under `WriteHeader` only, and their types — `c17.resp` (decided once) -/
+/-- the writer's fields are stored to under `WriteHeader` only — and the gzip field is cleared by `Close` —, and their
+types — `c17.resp` (decided once), `c17.fault` (a handler that calls `Close` itself) -/
 theorem decision_stores_pinned :
-    fieldStores = ["WriteHeader: F[*gzip.Writer]", "WriteHeader: F[io.Writer]", "WriteHeader: F[io.Writer]"] ∧
+    fieldStores = ["WriteHeader: F[*gzip.Writer]", "WriteHeader: F[io.Writer]", "WriteHeader: F[io.Writer]", "Close: F[*gzip.Writer]"] ∧
     writerFieldTypes = ["*gzip.Writer", "*regexp.Regexp", "io.Writer"] := by decide
 
 /-- the proxy installs the handler exactly when an expression is configured, with that expression — `c17.proxy`
